@@ -413,7 +413,7 @@ def g2(ctx, res):
               reason="only the bare ValidationError of _validate is converted into the reported error")
     if hs:
         h = hs[0][0]
-        res.check(has(f"raise ValidationError.from_validator({prop}, {v}, self.error_message())", h.body), call,
+        res.judge(True if (has(f"raise ValidationError.from_validator({prop}, {v}, self.error_message())", h.body)) else None, call,
                   "raise ValidationError.from_validator(property_, value, self.error_message())",
                   reason="the reported error is the library's validation error")
     isi = ctx.func("_is_instance")
@@ -866,7 +866,7 @@ def g4(ctx, res):
               reason="`not` rejects exactly when the inner schema accepts")
     cc = ctx.cls("CompositionElement").methods["construct"]
     v, pr = cc.params[1].name, cc.params[2].name
-    res.check(has(f"return _attempt_schemas(self.elements, {v}, {pr}, mode=self.mode)", cc), cc,
+    res.judge(True if (has(f"return _attempt_schemas(self.elements, {v}, {pr}, mode=self.mode)", cc)) else None, cc,
               "return _attempt_schemas(self.elements, value, property_, mode=self.mode)",
               reason="every composed element takes part, under the class's own mode")
 
@@ -973,7 +973,7 @@ def g5(ctx, res):
               reason="all object validators run before the instance is created")
     init = ctx.func("Object.__init__")
     vinit = V(ctx, init).body
-    res.check(has("type(self).__properties__(MV_v).items()", vinit) or has("self.__class__.__properties__(MV_v).items()", vinit), init,
+    res.judge(True if (has("type(self).__properties__(MV_v).items()", vinit) or has("self.__class__.__properties__(MV_v).items()", vinit)) else None, init,
               "for attr_name, attr_value in type(self).__properties__(value).items()",
               reason="the instance is populated from the per-key resolved and validated members")
     pcall = ctx.func("Properties.__call__")
@@ -983,7 +983,7 @@ def g5(ctx, res):
     res.judge(True if has("self[MV_i](MV_v, MV__)", V(ctx, icall).body) else None, icall, "self[index](sub_value, ...)",
               reason="each item is validated by its resolved element")
     pr = ctx.func("_Property.__call__")
-    res.check(has(f"return self.element({pr.params[1].name}, self)", pr), pr, "return self.element(value, self)",
+    res.judge(True if (has(f"return self.element({pr.params[1].name}, self)", pr)) else None, pr, "return self.element(value, self)",
               reason="a property validates with its element")
 
 
@@ -1229,10 +1229,10 @@ def g8(ctx, res):
         not has("self._callable_register.setdefault(MV__, MV__)", reg)
     res.check(ok, reg, "self._callable_register[format_string] = is_format (unconditional)",
               reason="registering a name again replaces the earlier checker")
-    res.check(has("return _register_callable", outer), outer, "return _register_callable", reason="register(name) returns the storing decorator")
+    res.judge(True if (has("return _register_callable", outer)) else None, outer, "return _register_callable", reason="register(name) returns the storing decorator")
     fv = ctx.cls("Format").methods["_validate"]
     v = fv.params[1].name
-    res.check(has(f"if not format_checker(self.params['format'], {v}):\n    raise ValidationError", fv), fv,
+    res.judge(True if (has(f"if not format_checker(self.params['format'], {v}):\n    raise ValidationError", fv)) else None, fv,
               "raise iff not format_checker(format, value)", reason="a string is rejected exactly when the checker answers false")
     # built-ins are registered under their Draft-6 names
     regs = {}
@@ -1531,8 +1531,10 @@ def g10(ctx, res):
     peq = ctx.func("_Property.__eq__")
     other = peq.params[1].name
     init = own_init(ctx.cls("_Property"))
+    found_fields = {p.name for p in init.params[1:] if has(f"self.{p.name} == {other}.{p.name}", peq)}
     for p in init.params[1:]:
-        res.check(has(f"self.{p.name} == {other}.{p.name}", peq), peq, f"self.{p.name} == other.{p.name}",
+        # the field-by-field style is recognised as soon as one field is compared that way: a missing one is then a gap
+        res.judge(True if p.name in found_fields else (False if found_fields else None), peq, f"self.{p.name} == other.{p.name}",
                   reason="property equality covers every constructor field")
     def rec_pg(e):
         ia_ = isinstance_atom(e)
@@ -1641,10 +1643,13 @@ def g11(ctx, res):
             okn = False
     res.judge(okn, od, "_next(): a class with no remaining dependencies", reason="only a class whose dependencies were all emitted is emitted")
     goc = ctx.func("get_object_classes")
-    res.check(has("isinstance(MV_e, ObjectMeta)", goc) and has("get_children(MV_e)", goc) and has("list(MV_es)", goc), goc,
+    res.judge(True if (has("isinstance(MV_e, ObjectMeta)", goc) and has("get_children(MV_e)", goc) and has("list(MV_es)", goc)) else None, goc,
               "roots + all children, filtered to object classes", reason="every reachable object class is collected")
     gc = ctx.func("get_children")
-    res.check(has("if id(MV_e) in MV_s:\n    yield MV_e\n    return", gc) and has("MV_s.add(id(MV_e))", gc), gc,
+    el_, seen_ = gc.params[0].name, (gc.params[1].name if len(gc.params) > 1 else "seen")
+    by_identity = has(f"id({el_}) in {seen_}", gc) and (has(f"{seen_}.add(id({el_}))", gc) or has(f"{seen_}.append(id({el_}))", gc))
+    by_equality = has(f"{el_} in {seen_}", gc) or has(f"{seen_}.append({el_})", gc) or has(f"{seen_}.add({el_})", gc)
+    res.judge(True if (by_identity and not by_equality) else (False if by_equality else None), gc,
               "identity-based seen set", reason="the walk terminates on shared and cyclic structures and still reports the revisited node")
 
 
@@ -1765,7 +1770,7 @@ def g12(ctx, res):
             ok3 = bool(store) and cond_set and not any(isinstance(x, (ast.Continue, ast.Break)) for x in ast.walk(n))
     res.check(ok3, init, "self._dict[name] = value for every pair; setattr only for declared properties",
               reason="every member is stored for item access; only declared properties become attributes")
-    res.check(has("return self._dict[MV_k]", ctx.func("Object.__getitem__")), ctx.func("Object.__getitem__"), "return self._dict[key]",
+    res.judge(True if (has("return self._dict[MV_k]", ctx.func("Object.__getitem__"))) else None, ctx.func("Object.__getitem__"), "return self._dict[key]",
               reason="item access reads the complete store")
     # scalar construct is the identity; only Number converts
     n_cons = 0
@@ -1788,7 +1793,7 @@ def g12(ctx, res):
     res.check("dict" in ac.ext_bases() and not ac.methods.get("__init__"), ac.qualname, "class _AnonymousObject(dict)",
               reason="untyped object results are plain dicts of every rebuilt member")
     ip = ctx.func("Items.property")
-    res.check(has("return MV_p.evolve(name=MV__)", ip), ip, "return property_.evolve(name=...)", reason="per-index property variant")
+    res.judge(True if (has("return MV_p.evolve(name=MV__)", ip)) else None, ip, "return property_.evolve(name=...)", reason="per-index property variant")
 
 
 # --------------------------------------------------------------------- G13
